@@ -141,7 +141,8 @@ var props = map[string]*PropSpec{
 	},
 	"C11": {
 		Level:        "exploration",
-		Scens:        []ScenSpec{{ID: "C11", QuickRuns: 6000, QuickSecs: 120, ThoroughRuns: 200000, ThoroughSecs: 900}},
+		Scens: []ScenSpec{{ID: "C11", QuickRuns: 6000, QuickSecs: 120, ThoroughRuns: 200000, ThoroughSecs: 900},
+			{ID: "C11H", QuickRuns: 300, QuickSecs: 60, ThoroughRuns: 30000, ThoroughSecs: 300}},
 		CoverageRule: "each run = the real TxnPoliciesAccessor (two MapVacuum goroutines, 5 s tick, 30 s retention) fed by the real file loader, and a seeded history of transaction request / response lookups, apply-policies (ReloadFromFile), apply with an HAProxy failure, revert-to-diagnosis-free / revert-to-last-loaded, with clock targets on vacuum ticks and at the retention -5 s / -1 ms / -1 ns / +1 ns / +6 s, single or in concurrent groups interleaved at instrumented lock sites; non-trivial = at least one response was judged inside the retention period; distinct = schedule signatures among non-trivial runs",
 		Assumptions: []string{
 			"retention is 30 s from the first lookup of a transaction; responses later than that are not judged",
